@@ -1,7 +1,7 @@
 (** Model of the BSL Metropolis-Hastings step and of the sample mean / covariance plumbing of the
     synthetic likelihoods (C20).  Anchors:
       elfi/methods/inference/bsl.py   BSL._get_mh_ratio, _process_simulated, _init_round
-      elfi/methods/bsl/pdf_methods.py gaussian_syn_likelihood (mean, cov, whitening)
+      elfi/methods/bsl/pdf_methods.py gaussian_syn_likelihood (mean, cov, whitening), syn_likelihood_misspec (mean / variance adjustment)
       elfi/methods/bsl/cov_warton.py  cov_warton
     Exact rationals stand for binary64 values; [exp], the log-Jacobian of the parameter transform
     ([_jacobian_logit_transform] after [_para_logit_transform], whose per-coordinate formulas are
@@ -133,6 +133,24 @@ Definition warton (gamma : Q) (S : list (list Q)) (dd : list Q) : list (list Q) 
   map (fun i => map (fun j => Qred (warton_entry gamma (nth j (nth i S []) 0) (nth i dd 1) (nth j dd 1) (Nat.eqb i j)))
                     (seq 0 (length S))) (seq 0 (length S)).
 
+(** [syn_likelihood_misspec]: [std = np.sqrt(np.diag(sample_cov))] ([sd], oracle),
+    "mean":     [sample_mean = sample_mean + std * gamma]
+    "variance": [sample_cov = sample_cov + np.diag((std * gamma) ** 2)]
+    The caller's [gamma] is an INPUT: the model has no state between evaluations. *)
+Definition mis_mean_entry (m sd g : Q) : Q := m + sd * g.
+Definition mis_var_entry (s sd g : Q) (diag : bool) : Q := s + (if diag then (sd * g) * (sd * g) else 0).
+(** published form of the variance adjustment, free of the sqrt oracle: Sigma_ii (1 + gamma_i^2) on the diagonal *)
+Definition mis_var_spec_entry (s g : Q) (diag : bool) : Q := if diag then s * (1 + g * g) else s.
+
+Definition mis_mean_vec (m sd g : list Q) : list Q :=
+  map (fun i => Qred (mis_mean_entry (nth i m 0) (nth i sd 0) (nth i g 0))) (seq 0 (length m)).
+Definition mis_var_mat (S : list (list Q)) (sd g : list Q) : list (list Q) :=
+  map (fun i => map (fun j => Qred (mis_var_entry (nth j (nth i S []) 0) (nth i sd 0) (nth i g 0) (Nat.eqb i j)))
+                    (seq 0 (length S))) (seq 0 (length S)).
+Definition mis_var_spec_mat (S : list (list Q)) (g : list Q) : list (list Q) :=
+  map (fun i => map (fun j => Qred (mis_var_spec_entry (nth j (nth i S []) 0) (nth i g 0) (Nat.eqb i j)))
+                    (seq 0 (length S))) (seq 0 (length S)).
+
 (** ------------------------------------------------------------------------------------------
     3. Correspondence interface
     ------------------------------------------------------------------------------------------ *)
@@ -167,6 +185,24 @@ Fixpoint lookup (tbl : list (list Q * Q)) (k : list Q) : Q :=
 (** a recorded call of numpy's exp: the argument the code passed and the value it got back *)
 Record exp_call := mkExp { e_arg : Q; e_val : Q }.
 
+(** which likelihood a call history evaluates *)
+Inductive variant :=
+| VStd (W : option (list (list Q))) (shrink : option Q)   (* gaussian_syn_likelihood: whitening matrix, Warton gamma = 1 - penalty *)
+| VMean                                                    (* syn_likelihood_misspec, adjustment = "mean" *)
+| VVar.                                                    (* syn_likelihood_misspec, adjustment = "variance" *)
+
+(** one evaluation inside a history of calls that share the caller's arrays *)
+Record lik_eval := mkEval {
+  ev_X : list (list Q);        (* simulated summaries of this evaluation *)
+  ev_par : list Q;             (* the adjustment parameter gamma ON RECORD for this evaluation: the content of the caller's
+                                  array as the caller last wrote it (direct histories: before the first call; sampler
+                                  rounds: state['gamma'][n]); [] for VStd *)
+  ev_sd : list Q;              (* oracle: VStd with shrinkage sqrt(diag S + eps); VMean / VVar sqrt(diag S) *)
+  ev_y : list Q;               (* implementation: the arguments handed to multivariate_normal.logpdf *)
+  ev_mean : list Q;
+  ev_cov : list (list Q)
+}.
+
 Inductive case :=
 (** [_get_mh_ratio] on a constructed sampler state *)
 | CMh (use_tr : bool) (p_new : list Q) (lpost_new : Q) (prev : row)
@@ -186,7 +222,11 @@ Inductive case :=
 (** mean / cov / whitening / Warton as handed to multivariate_normal.logpdf by gaussian_syn_likelihood *)
 | CLik (d : nat) (X : list (list Q)) (y : list Q) (W : option (list (list Q)))
        (shrink : option (Q * list Q))   (* gamma = 1 - penalty, oracle sqrt(diag(S) + eps) *)
-       (impl_y impl_mean : list Q) (impl_cov : list (list Q)).
+       (impl_y impl_mean : list Q) (impl_cov : list (list Q))
+(** a HISTORY of evaluations of one likelihood that re-use the caller's observed vector / whitening matrix /
+    gamma array objects (as BSL's sampler does): [y], [v] and [ev_par] are the values on record, every evaluation
+    is compared with a fresh run of the (stateless) model on them *)
+| CHist (d : nat) (v : variant) (y : list Q) (evals : list lik_eval).
 
 Definition lik_model (ce : list Q -> list Q -> Q) (d : nat) (X : list (list Q)) (y : list Q)
            (W : option (list (list Q))) (shrink : option (Q * list Q)) : list Q * list Q * list (list Q) :=
@@ -226,6 +266,54 @@ Definition state_after_init_ok (st : state) (props : list proposal) (rows' : lis
           else (consumed =? k)%nat && (length rows' =? s_cap st)%nat)
   end.
 
+(** oracle [sd_i = sqrt(S_ii)] *)
+Definition sd_oracle_ok (S : list (list Q)) (sd : list Q) : bool :=
+  (length sd =? length S)%nat &&
+  forallb (fun i => let di := nth i sd 1 in
+                    Qltb 0 di && close tol9 (nth i (nth i S []) 0) (di * di))
+          (seq 0 (length S)).
+
+(** the model's arguments of the normal density for ONE evaluation; nothing is carried over between evaluations *)
+Definition eval_model (ce : list Q -> list Q -> Q) (d : nat) (v : variant) (y : list Q) (e : lik_eval)
+  : list Q * list Q * list (list Q) :=
+  match v with
+  | VStd W sh => lik_model ce d (ev_X e) y W (match sh with Some g => Some (g, ev_sd e) | None => None end)
+  | VMean => (y, mis_mean_vec (mean_vec d (ev_X e)) (ev_sd e) (ev_par e), cov_mat ce d (ev_X e))
+  | VVar => (y, mean_vec d (ev_X e), mis_var_mat (cov_mat ce d (ev_X e)) (ev_sd e) (ev_par e))
+  end.
+
+Definition eval_agree (d : nat) (v : variant) (y : list Q) (e : lik_eval) : bool :=
+  let '(y1, m, Sg) := eval_model cov_entry d v y e in
+  vec_close tol9 y1 (ev_y e) && vec_close tol9 m (ev_mean e) && mat_close tol7 Sg (ev_cov e)
+  && match v with
+     | VStd W (Some _) =>
+         sqrt_oracle_ok (cov_mat cov_entry d (match W with Some w => whiten_rows w (ev_X e) | None => ev_X e end)) (ev_sd e)
+     | VStd _ None => true
+     | _ => (length (ev_par e) =? d)%nat && sd_oracle_ok (cov_mat cov_entry d (ev_X e)) (ev_sd e)
+     end.
+
+(** the property's statement for one evaluation, on what the implementation handed to the normal density:
+    textbook covariance; mean adjustment mu + sd * gamma with sd_i^2 = Sigma_ii; variance adjustment
+    Sigma + diag(Sigma_ii * gamma_i^2) (no oracle); gamma = the value on record *)
+Definition eval_ok (d : nat) (v : variant) (y : list Q) (e : lik_eval) : bool :=
+  match v with
+  | VStd W sh =>
+      let '(y1, m, Sg) := eval_model cov_alt d v y e in
+      vec_close tol9 y1 (ev_y e) && vec_close tol9 m (ev_mean e) && mat_close tol7 Sg (ev_cov e)
+      && symmetric tol9 (ev_cov e)
+  | VMean =>
+      let S := cov_mat cov_alt d (ev_X e) in
+      (length (ev_par e) =? d)%nat && sd_oracle_ok S (ev_sd e)
+      && vec_close tol9 y (ev_y e)
+      && vec_close tol9 (mis_mean_vec (mean_vec d (ev_X e)) (ev_sd e) (ev_par e)) (ev_mean e)
+      && mat_close tol7 S (ev_cov e) && symmetric tol9 (ev_cov e)
+  | VVar =>
+      (length (ev_par e) =? d)%nat
+      && vec_close tol9 y (ev_y e) && vec_close tol9 (mean_vec d (ev_X e)) (ev_mean e)
+      && mat_close tol7 (mis_var_spec_mat (cov_mat cov_alt d (ev_X e)) (ev_par e)) (ev_cov e)
+      && symmetric tol9 (ev_cov e)
+  end.
+
 Definition agree (c : case) : bool :=
   match c with
   | CMh use_tr p_new lpost_new prev ji js ec ratio lr =>
@@ -259,6 +347,7 @@ Definition agree (c : case) : bool :=
          | Some (_, dd) => sqrt_oracle_ok (cov_mat cov_entry d (match W with Some w => whiten_rows w X | None => X end)) dd
          | None => true
          end
+  | CHist d v y evals => forallb (eval_agree d v y) evals
   end.
 
 (** the property's own statement evaluated on what the implementation returned *)
@@ -292,4 +381,7 @@ Definition ok (c : case) : bool :=
          covariance (textbook one-pass form) of the (whitened) summaries, shrunk as stated; symmetric *)
       let '(y1, m, Sg) := lik_model cov_alt d X y W shrink in
       vec_close tol9 y1 iy && vec_close tol9 m imean && mat_close tol7 Sg icov && symmetric tol9 icov
+  | CHist d v y evals =>
+      (* every evaluation of the history satisfies the statement for the values on record *)
+      forallb (eval_ok d v y) evals
   end.
